@@ -17,6 +17,8 @@ VOps ==
   {[op |-> n, o |-> o] : n \in {"new_empty", "new_ev", "assign_ev", "visit", "destroy"}, o \in O}
   \cup {[op |-> n, o |-> o, val |-> x, throw |-> t] : n \in {"new_a", "new_b", "new_c", "assign_a", "assign_b", "assign_c"}, o \in O, x \in V, t \in BOOLEAN}
   \cup {[op |-> n, o |-> o, val |-> x] : n \in {"new_i", "assign_i"}, o \in O, x \in {7}}
+  \cup {[op |-> n, o |-> o, val |-> x] : n \in {"new_sub_a", "new_sub_b", "assign_sub_a", "assign_sub_b", "swap_a", "take_a"}, o \in O, x \in {5}}
+  \cup {[op |-> n, o |-> o] : n \in {"new_sub_empty", "assign_sub_empty"}, o \in O}
   \cup {[op |-> n, o |-> o, p |-> p, throw |-> t] : n \in {"new_copy", "assign_copy"}, o \in O, p \in O, t \in BOOLEAN}
   \cup {[op |-> n, o |-> o, p |-> p] : n \in {"new_move", "assign_move"}, o \in O, p \in O}
   \cup {[op |-> "become", o |-> o, idx |-> k] : o \in O, k \in {-2, -1, 0, 1, 2, 3}}
@@ -28,6 +30,11 @@ OOps ==
 OConvOps == {[op |-> n, o |-> o, val |-> x, srcempty |-> se] : n \in {"assign_conv_move", "assign_conv_copy"}, o \in O, x \in V, se \in BOOLEAN}
 ROps ==
   OOps \cup {[op |-> n, o |-> o, val |-> x] : n \in {"new_err", "assign_err"}, o \in O, x \in {0, 1, 2}}
+\* Result<E, void>: the same machine without values
+RVOps ==
+  {[op |-> n, o |-> o] : n \in {"new_empty", "clear", "destroy"}, o \in O}
+  \cup {[op |-> n, o |-> o, p |-> p] : n \in {"new_copy", "assign_copy", "new_move", "assign_move"}, o \in O, p \in O}
+  \cup {[op |-> n, o |-> o, val |-> x] : n \in {"new_err", "assign_err"}, o \in O, x \in {0, 1, 2}}
 HOps(st) ==
   {[op |-> n, o |-> o] : n \in {"new_empty", "release", "close", "destroy"}, o \in O}
   \cup {[op |-> "new_res", o |-> o, r |-> CHOOSE r \in 0..(NRes - 1) : r \notin HOwned(st) /\ st.closed[r] = 0 /\ st.released[r] = 0] : o \in O}
@@ -43,14 +50,14 @@ Step(op) ==
   /\ hist' = Append(hist, op)
   /\ st' = CASE Machine = "variant" -> VNext(st, op)
              [] Machine = "optional" -> ONext(st, op)
-             [] Machine = "result" -> RNext(st, op)
+             [] Machine \in {"result", "result_void"} -> RNext(st, op)
              [] Machine = "uhandle" -> HNext(st, op)
 Next ==
   /\ Len(hist) < Depth
-  /\ \E op \in (CASE Machine = "variant" -> VOps [] Machine = "optional" -> OOps \cup OConvOps [] Machine = "result" -> ROps
+  /\ \E op \in (CASE Machine = "variant" -> VOps [] Machine = "optional" -> OOps \cup OConvOps [] Machine = "result" -> ROps [] Machine = "result_void" -> RVOps
                   [] Machine = "uhandle" -> HOps(st)) :
        /\ CASE Machine = "variant" -> VPre(st, op) [] Machine = "optional" -> OPre(st, op)
-            [] Machine = "result" -> RPre(st, op) [] Machine = "uhandle" -> HPre(st, op)
+            [] Machine \in {"result", "result_void"} -> RPre(st, op) [] Machine = "uhandle" -> HPre(st, op)
        /\ Step(op)
 Spec == Init /\ [][Next]_vars
 
@@ -60,13 +67,13 @@ Admitted ==
        LET op == hist'[Len(hist')] IN
        CASE Machine = "variant" -> VPost(st, op, st', FALSE)
          [] Machine = "optional" -> OPost(st, op, st', FALSE)
-         [] Machine = "result" -> RPost(st, op, st', FALSE)
+         [] Machine \in {"result", "result_void"} -> RPost(st, op, st', FALSE)
          [] Machine = "uhandle" -> TRUE]_vars
 \* C15b at design level
 HandleInv == Machine = "uhandle" => (HClosedOnce(st) /\ HUnique(st))
 \* state-shape invariants of the other machines
 ShapeInv ==
   /\ Machine = "variant" => \A s \in Slots : st[s] = None \/ (st[s].i \in {-1, 0, 1, 2} /\ (st[s].i = -1 => st[s].v = 0))
-  /\ Machine = "result" => \A s \in Slots : st[s] = None \/ st[s].s \in {"empty", "val"} \/ (st[s].s = "err" /\ st[s].c # 0)
+  /\ Machine \in {"result", "result_void"} => \A s \in Slots : st[s] = None \/ st[s].s \in {"empty", "val"} \/ (st[s].s = "err" /\ st[s].c # 0)
 Emit == (Emitting /\ Len(hist) = Depth) => PrintT(ToJson(hist))
 =============================================================================
